@@ -36,7 +36,7 @@ let eval_line (line : string) : (string * string * string) =
   match split_ws line with
   | "RD" :: kind :: writes :: "|" :: bufs :: "|" :: ns :: [] ->
     let ws = ints_of writes in
-    let recs = if kind = "grpc" then List.map zeros ws
+    let recs = if kind = "grpc" || kind = "kit" then List.map zeros ws
       else List.concat_map (fun w -> tcp_write_records (zeros w)) ws in
     let sizes = List.map z_of_int (ints_of bufs) in
     let rd = if kind = "grpc" then grpc_read else buf_read in
